@@ -790,7 +790,38 @@ pub fn run(e: &Engine) {
         "chain-GitLocal-aged",
         "as chain-GitLocal with every commit dated 200 days back (GIT_COMMITTER_DATE), so that the cleanup after add_snapshot removes the version files the snapshot covers; a version at or before a stored snapshot's version may then be missing, every other accepted version must still be served",
         e.tier.pick(24, 400),
-        move || strategy(Backend::GitLocal, 12).prop_map(|mut c| { c.aged = true; c }).boxed(),
+        move || {
+            strategy(Backend::GitLocal, 12)
+                .prop_map(|mut c| {
+                    c.aged = true;
+                    // half of the snapshots are for the latest version: then the cleanup removes
+                    // every version file, and the chain head is known from the meta file alone
+                    // and each of those is followed at once by a version with a wrong parent
+                    let mut ops = vec![];
+                    for mut op in c.ops.drain(..) {
+                        let mut follow = None;
+                        if let SOp::AddSnapshot { h, version, .. } = &mut op {
+                            if *version % 2 == 1 {
+                                follow = Some(SOp::AddVersion {
+                                    h: *h,
+                                    parent: match *version % 3 {
+                                        0 => ParentSel::Nil,
+                                        1 => ParentSel::Unknown(1),
+                                        _ => ParentSel::Older(0),
+                                    },
+                                    payload: Payload::Bytes(vec![7]),
+                                });
+                                *version = 0xFFFF;
+                            }
+                        }
+                        ops.push(op);
+                        ops.extend(follow);
+                    }
+                    c.ops = ops;
+                    c
+                })
+                .boxed()
+        },
         |c| serde_json::json!({"backend": "GitLocal, commits dated 200 days back", "ops": c.ops.iter().map(|o| match o { SOp::AddVersion { h, parent, payload } => format!("AddVersion(h{h}, {parent:?}, {} bytes)", payload_bytes(payload).len()), other => format!("{other:?}") }).collect::<Vec<_>>()}),
         check_case,
     );
